@@ -45,7 +45,8 @@
 (***************************************************************************)
 EXTENDS Values
 
-Keys == {"value", "factor", "addend", "a", "b", "w", "t_values"}
+\* "a.b" / "a_b": key names that differ only in a character that class-name sanitisation folds together
+Keys == {"value", "factor", "addend", "a", "b", "w", "t_values", "a.b", "a_b"}
 
 Node(kind, cfg, k1, k2, sw) == [kind |-> kind, cfg |-> cfg, k1 |-> k1, k2 |-> k2, sw |-> sw]
 N0(kind)          == Node(kind, <<>>, "", "", <<>>)
